@@ -2,9 +2,9 @@ package main
 
 import (
 	"fmt"
-	"sort"
 	"go/constant"
 	"go/token"
+	"sort"
 	"strings"
 
 	"golang.org/x/tools/go/ssa"
@@ -1202,7 +1202,6 @@ func (w *walker) generic(s *wstate, v ssa.Value) *Term {
 	t.V, t.Typ = v, v.Type()
 	return t
 }
-
 
 // regClosure: the function literal (or bound method value) stored by a map update, through conversions and boxing.
 func regClosure(mu *ssa.MapUpdate) *ssa.MakeClosure {
